@@ -579,8 +579,8 @@ def run(ctx):
                 return base.attrs.get("_gfa")
             return super().getattr(ev, base, attr)
     for prev_rt, prev_tags, new_tags in itertools.product(
-            ("U", "O", "S"), ({"xx": 1}, {}),
-            ({"xx": 2}, {"xx": 1}, {"yy": 3}, {})):
+            ("U", "O", "S"), ({"xx": 1}, {"xx": 0}, {}),
+            ({"xx": 2}, {"xx": 1}, {"yy": 3}, {}, {"xx": 0}, {"xx": ""})):
         ctx.instance(R)
         g = Abs(gfacls, label="gfa", registry=["prev"])
         pd = dict(prev_tags)
@@ -601,7 +601,12 @@ def run(ctx):
         conflict = prev_rt != "U" or (
             "xx" in prev_tags and "xx" in new_tags and
             prev_tags["xx"] != new_tags["xx"])
-        ok = (out[0] == "raise") == conflict and (
+        # (whether a tag holding 0 or an empty string counts as defined is
+        # not decided here: only that a refusal comes before any change)
+        falsy = any(not v for v in list(prev_tags.values()) +
+                    list(new_tags.values()))
+        ok = ((out[0] == "raise") == conflict or
+              (falsy and prev_rt == "U")) and (
             out[0] != "raise" or before == after)
         ctx.oblige(ok)
         if not ok:
